@@ -30,7 +30,9 @@ func c22(x *ctx) {
 		"Oracles: -i prints exactly one signature hint per method at its def row tagged c/ or i/ with the visibility in effect (instance methods); --define --row=<call row> contains a record with the method's def row; " +
 		"--hover --row=<call row> prints a %<method>::: record. non-trivial = all"
 	r.Assumptions = []string{"visibility tag of class methods is not checked (Ruby: always public; the statement says 'in effect at the definition')"}
-	kinds := []string{"plain", "private", "protected", "public", "def-self", "class-self", "endless", "multiline", "endless-multiline"}
+	// the last three kinds return an instance of a user class (the class itself / a peer class in the same namespace)
+	kinds := []string{"plain", "private", "protected", "public", "def-self", "class-self", "endless", "multiline", "endless-multiline", "returns-own", "self-returns-own", "returns-peer", "returns-top-peer"}
+	nOldKinds := 9
 	maxLen := 3
 	if thorough {
 		maxLen = 4
@@ -45,6 +47,9 @@ func c22(x *ctx) {
 			return
 		}
 		for i := range kinds {
+			if !thorough && len(cur) >= 2 && (i >= nOldKinds || cur[0] >= nOldKinds || cur[1] >= nOldKinds) {
+				continue // quick: the instance-returning kinds in sequences of at most two items
+			}
 			rec(append(cur, i))
 		}
 	}
@@ -65,9 +70,26 @@ func c22(x *ctx) {
 			row := 0
 			line := func(s string) { sb.WriteString(s + "\n"); row++ }
 			ind := ""
+			for _, ki := range seq {
+				if kinds[ki] == "returns-top-peer" {
+					line("class Tpeer")
+					line("end")
+					break
+				}
+			}
 			if wrap {
 				line("module Outer")
 				ind = "  "
+			}
+			needPeer := false
+			for _, ki := range seq {
+				if kinds[ki] == "returns-peer" {
+					needPeer = true
+				}
+			}
+			if needPeer {
+				line(ind + "class Peer")
+				line(ind + "end")
 			}
 			line(ind + "class Gizmo")
 			vis := "public"
@@ -100,6 +122,27 @@ func c22(x *ctx) {
 					ms = append(ms, c22method{name: name, defRow: row, static: true, nparams: 1, kind: k})
 					line(ind + "      a")
 					line(ind + "    end")
+					line(ind + "  end")
+				case "returns-own":
+					line(ind + "  def " + name + "(a)")
+					ms = append(ms, c22method{name: name, defRow: row, vis: vis, nparams: 1, kind: k})
+					line(ind + "    Gizmo.new")
+					line(ind + "  end")
+				case "self-returns-own":
+					line(ind + "  def self." + name + "(a)")
+					ms = append(ms, c22method{name: name, defRow: row, static: true, nparams: 1, kind: k})
+					line(ind + "    Gizmo.new")
+					line(ind + "  end")
+				case "returns-peer":
+					line(ind + "  def " + name + "(a)")
+					ms = append(ms, c22method{name: name, defRow: row, vis: vis, nparams: 1, kind: k})
+					line(ind + "    Peer.new")
+					line(ind + "  end")
+				case "returns-top-peer":
+					// the returned object lives in another namespace than the method (top level vs. Outer)
+					line(ind + "  def " + name + "(a)")
+					ms = append(ms, c22method{name: name, defRow: row, vis: vis, nparams: 1, kind: k})
+					line(ind + "    Tpeer.new")
 					line(ind + "  end")
 				case "endless":
 					line(ind + "  def " + name + "(a) = a")
@@ -147,6 +190,13 @@ func c22(x *ctx) {
 			ms = append(ms, c22method{name: "top_level_m", defRow: row, vis: "public", nparams: 1, kind: "top-level"})
 			line("  a")
 			line("end")
+			if wrap {
+				// a top-level method that returns an instance of the namespaced class
+				line("def top_maker(a)")
+				ms = append(ms, c22method{name: "top_maker", defRow: row, vis: "public", nparams: 1, kind: "top-level"})
+				line("  " + q + "Gizmo.new")
+				line("end")
+			}
 			line("obj = " + q + "Gizmo.new")
 			for i := range ms {
 				args := "1"
@@ -155,7 +205,7 @@ func c22(x *ctx) {
 				}
 				switch {
 				case ms[i].kind == "top-level":
-					line("top_level_m(" + args + ")")
+					line(ms[i].name + "(" + args + ")")
 					ms[i].callRow = row
 				case ms[i].static:
 					line(q + "Gizmo." + ms[i].name + "(" + args + ")")
